@@ -399,7 +399,17 @@ def scenario(ctx, case):
     return st
 
 
-def scenarios_task(ctx, examples, shard):
+def retry_spoof_strategy():
+    """Retry exchanges in which the client's token-bearing Initial is also replayed from another address or port"""
+    from hypothesis import strategies as st
+
+    quick = st.sampled_from([0.001, 0.01])
+    spoof = st.tuples(st.sampled_from(["spoof", "spoof-port"]), st.sampled_from([0.001, 0.01, 0.1]), st.sampled_from([0.001, 0.02, 0.15])).map(list)
+    head = st.tuples(quick, quick, spoof).map(lambda t: [["deliver", t[0], 0.001], ["deliver", t[1], 0.001], t[2]])
+    return st.tuples(case_strategy(), head).map(lambda t: dict(t[0], retry=True, clients=[dict(t[0]["clients"][0], start=0)], fates=t[1] + t[0]["fates"][:20]))
+
+
+def scenarios_task(ctx, examples, shard, directed=None):
     from vlib.harness import run_hypothesis
 
     def body(ctx, case):
@@ -407,7 +417,7 @@ def scenarios_task(ctx, examples, shard):
         if ctx.want_sample():
             ctx.sample({"retry": case["retry"], "clients": [{k: (v if k != "ops" else [dict(o, chunks=o.get("chunks", [])[:3]) if o["op"] == "stream" else o for o in v[:4]]) for k, v in c.items()} for c in case["clients"]], "fates": case["fates"][:6], "lateness": case["lateness"]})
 
-    run_hypothesis(ctx, body, case_strategy(), examples, shard=shard)
+    run_hypothesis(ctx, body, retry_spoof_strategy() if directed == "retry-spoof" else case_strategy(), examples, shard=shard)
 
 
 def replay(ctx, case):
@@ -416,8 +426,10 @@ def replay(ctx, case):
 
 def plan(tier, seed):
     q = tier == "quick"
-    return [("scenarios-%d" % s, {"examples": 60 if q else 6000, "shard": s}) for s in range(12 if q else 16)]
+    t = [("scenarios-%d" % s, {"examples": 60 if q else 6000, "shard": s}) for s in range(12 if q else 16)]
+    t.append(("retry-spoof-0", {"examples": 40 if q else 3000, "shard": 0, "directed": "retry-spoof"}))
+    return t
 
 
-def run_task(ctx, name, examples, shard):
-    scenarios_task(ctx, examples, shard)
+def run_task(ctx, name, examples, shard, directed=None):
+    scenarios_task(ctx, examples, shard, directed)
